@@ -623,6 +623,9 @@ package plenccodec
 //@   loop 2 invariant[C04] 0 <= rangeindex + 1
 //@   loop 2 decreases len(d.Elements) - rangeindex
 //@   ensures[C04] err == nil ==> 0 <= n && n <= len(data)
+//@   # an entry of a string-keyed map is a key and a value in the output object, also when the key (the empty string)
+//@   # or the value (a zero) is omitted from the data: an entry with nothing in it still yields its key
+//@   ensures[C13] err == nil && len(data) == 0 && d.Elements[0].Type == 4 ==> called_Descriptor_read
 
 //@ func plenccodec.*Descriptor.readAsJSON
 //@   safety C04 C13 C16
